@@ -11,6 +11,9 @@ C14 — every character reference resolves to its WHATWG value.
 * `C14_lookup_exact`, `C14_lookup_prefix`, `C14_lookup_none`: the model of `build.rs` + `phf`
   (`entityLookup`) answers a table value exactly for table names, `(0,0)` exactly for proper prefixes
   of table names, and nothing otherwise.
+* `C14_named_longest` (+ `C14_walk_is_do_named`): the walk of `do_named` stops with the **longest**
+  table name that is a prefix of the text after `&`, for every text (prefix closure is what makes
+  the greedy walk complete).
 * `C14_numeric_*`: the wrapping accumulator with its `num_too_big` latch computes
   "value > 0x10FFFF" exactly, and `finish_numeric` returns the standard's code point for every value.
 -/
@@ -418,5 +421,233 @@ example : accum 16 [1, 0, 15, 15, 15, 15] (0, false) = (0x10FFFF, false) := by d
 example : (accum 16 [1, 1, 0, 0, 0, 0] (0, false)).2 = true := by decide                -- 0x110000: latch
 example : (accum 10 [9, 9, 9, 9, 9, 9, 9, 9, 9, 9, 9, 9] (0, false)).2 = true := by decide  -- latch on overflow
 example : specNumeric 0x80 = 0x20AC ∧ specNumeric 0x81 = 0x81 ∧ specNumeric 0 = 0xFFFD := by decide
+
+/-! ### the named-reference walk finds the longest match
+
+`do_named` consumes characters one at a time while the buffer is still in the map (a name or a
+prefix of one), remembering the last full match. `walk` is that loop as a pure function;
+`C14_walk_is_do_named` ties it to the model's `crStep`, and `C14_named_longest` shows that when the
+walk stops, the remembered match is the **longest** table name that is a prefix of the text after
+`&` — for every text. -/
+namespace Walk
+open H5V.Model.HtmlTok
+
+/-- a full match: the buffer is a table name -/
+def isKey (p : Str) : Prop := ∃ v, entityLookup p = some v ∧ v.1 ≠ 0
+
+/-- the loop of `do_named` on the available text: (buffer, last full match, its length, ran dry?) -/
+def walk : Str → Option (Nat × Nat) → Nat → Str → Str × Option (Nat × Nat) × Nat × Bool
+  | nb, mt, len, [] => (nb, mt, len, true)
+  | nb, mt, len, c :: rest =>
+    match entityLookup (nb ++ [c]) with
+    | some v => if v.1 ≠ 0 then walk (nb ++ [c]) (some v) (nb ++ [c]).length rest
+                else walk (nb ++ [c]) mt len rest
+    | none => (nb ++ [c], mt, len, false)
+
+theorem isPrefixOf_iff (a b : List Nat) : isPrefixOf a b = true ↔ a <+: b := by
+  induction a generalizing b with
+  | nil => simp [isPrefixOf]
+  | cons x xs ih =>
+    cases b with
+    | nil => simp [isPrefixOf]
+    | cons y ys => simp [isPrefixOf, ih, List.cons_prefix_cons]
+
+/-- a non-empty buffer is in the map iff it is a prefix of a table name in its letter's bucket -/
+theorem lookup_some_iff (c : Nat) (rest : List Nat) :
+    (entityLookupN (c :: rest)).isSome = true ↔ ∃ r ∈ Gen.Entities.bucket c, (c :: rest) <+: r.1 := by
+  simp only [entityLookupN]
+  constructor
+  · intro h
+    split at h
+    · rename_i r hfind
+      have hmem := List.mem_of_find?_eq_some hfind
+      have heq := List.find?_some hfind
+      simp only [beq_iff_eq] at heq
+      exact ⟨r, hmem, by rw [heq]; exact List.prefix_refl _⟩
+    · split at h
+      · rename_i hany
+        rw [List.any_eq_true] at hany
+        obtain ⟨r, hr, hp⟩ := hany
+        exact ⟨r, hr, (isPrefixOf_iff _ _).mp hp⟩
+      · simp at h
+  · rintro ⟨r, hr, hp⟩
+    split
+    · rfl
+    · have : (Gen.Entities.bucket c).any (fun r => isPrefixOf (c :: rest) r.1) = true := by
+        rw [List.any_eq_true]; exact ⟨r, hr, (isPrefixOf_iff _ _).mpr hp⟩
+      simp [this]
+
+/-- **prefix closure** (what `build.rs` establishes): every non-empty prefix of a buffer that is in
+the map is in the map -/
+theorem lookup_prefix_closed (p q : List Nat) (hq : q ≠ []) (hpre : q <+: p)
+    (h : (entityLookupN p).isSome = true) : (entityLookupN q).isSome = true := by
+  cases q with
+  | nil => exact absurd rfl hq
+  | cons d qs =>
+    cases p with
+    | nil => simp at hpre
+    | cons c rest =>
+      have hd : d = c := by
+        obtain ⟨t, ht⟩ := hpre
+        simp at ht; exact ht.1
+      subst hd
+      rw [lookup_some_iff] at h ⊢
+      obtain ⟨r, hr, hpr⟩ := h
+      exact ⟨r, hr, List.IsPrefix.trans hpre hpr⟩
+
+def bestLen (mt : Option (Nat × Nat)) (len : Nat) : Nat :=
+  match mt with
+  | some _ => len
+  | none => 0
+
+/-- invariant of the walk: `mt`/`len` is the longest full match among the non-empty prefixes of
+the consumed buffer `nb` -/
+def Best (nb : Str) (mt : Option (Nat × Nat)) (len : Nat) : Prop :=
+  (∀ v, mt = some v → 0 < len ∧ len ≤ nb.length ∧ entityLookup (nb.take len) = some v ∧ v.1 ≠ 0) ∧
+  (∀ n, bestLen mt len < n → n ≤ nb.length → ¬ isKey (nb.take n))
+
+theorem best_nil : Best [] none 0 := by
+  refine ⟨fun v h => by simp at h, fun n h1 h2 => ?_⟩
+  simp at h2; omega
+
+theorem walk_best (inp : Str) : ∀ (nb : Str) (mt : Option (Nat × Nat)) (len : Nat),
+    Best nb mt len →
+    ∀ nb' mt' len' dry, walk nb mt len inp = (nb', mt', len', dry) →
+      nb' <+: nb ++ inp ∧ nb <+: nb' ∧
+      (dry = false → Best (nb'.take (nb'.length - 1)) mt' len' ∧ nb' ≠ [] ∧ entityLookup nb' = none) ∧
+      (dry = true → Best nb' mt' len' ∧ nb' = nb ++ inp) := by
+  induction inp with
+  | nil =>
+    intro nb mt len hb nb' mt' len' dry h
+    simp only [walk, Prod.mk.injEq] at h
+    obtain ⟨h1, h2, h3, h4⟩ := h
+    subst h1 h2 h3 h4
+    exact ⟨by simp, List.prefix_refl _, fun h => by simp at h, fun _ => ⟨hb, by simp⟩⟩
+  | cons c rest ih =>
+    intro nb mt len hb nb' mt' len' dry h
+    simp only [walk] at h
+    cases hl : entityLookup (nb ++ [c]) with
+    | none =>
+      rw [hl] at h
+      simp only [Prod.mk.injEq] at h
+      obtain ⟨h1, h2, h3, h4⟩ := h
+      subst h1 h2 h3 h4
+      refine ⟨by simp, by simp, fun _ => ⟨?_, by simp, hl⟩, fun h => by simp at h⟩
+      simpa using hb
+    | some v =>
+      rw [hl] at h
+      simp only at h
+      have hstep : ∀ mt2 len2, Best (nb ++ [c]) mt2 len2 →
+          walk (nb ++ [c]) mt2 len2 rest = (nb', mt', len', dry) →
+          nb' <+: nb ++ c :: rest ∧ nb <+: nb' ∧
+          (dry = false → Best (nb'.take (nb'.length - 1)) mt' len' ∧ nb' ≠ [] ∧ entityLookup nb' = none) ∧
+          (dry = true → Best nb' mt' len' ∧ nb' = nb ++ c :: rest) := by
+        intro mt2 len2 hb2 hw
+        obtain ⟨a1, a2, a3, a4⟩ := ih (nb ++ [c]) mt2 len2 hb2 nb' mt' len' dry hw
+        refine ⟨by simpa using a1, List.IsPrefix.trans (by simp) a2, a3, fun hd => ?_⟩
+        obtain ⟨b1, b2⟩ := a4 hd
+        exact ⟨b1, by simpa using b2⟩
+      split at h
+      · rename_i hv
+        apply hstep (some v) (nb ++ [c]).length ?_ h
+        refine ⟨fun v' hv' => ?_, fun n h1 h2 => ?_⟩
+        · simp only [Option.some.injEq] at hv'
+          subst hv'
+          have ht : (nb ++ [c]).take (nb ++ [c]).length = nb ++ [c] := List.take_length
+          exact ⟨by simp, by simp, by rw [ht]; exact hl, hv⟩
+        · simp only [bestLen] at h1; omega
+      · rename_i hv
+        apply hstep mt len ?_ h
+        obtain ⟨hb1, hb2⟩ := hb
+        refine ⟨fun v' hv' => ?_, fun n h1 h2 => ?_⟩
+        · obtain ⟨c1, c2, c3, c4⟩ := hb1 v' hv'
+          refine ⟨c1, by simp; omega, ?_, c4⟩
+          rw [List.take_append_of_le_length c2]; exact c3
+        · simp only [List.length_append, List.length_cons, List.length_nil] at h2
+          by_cases hn : n ≤ nb.length
+          · rw [List.take_append_of_le_length hn]
+            exact hb2 n h1 hn
+          · have : n = nb.length + 1 := by omega
+            subst this
+            rw [List.take_of_length_le (by simp)]
+            rintro ⟨v', hv1, hv2⟩
+            rw [hl] at hv1
+            simp only [Option.some.injEq] at hv1
+            subst hv1
+            simp at hv
+            exact hv2 hv
+
+/-- **longest match.** When the walk over the text `s` after `&` stops because the buffer left the
+map, the remembered match is the longest table name that is a prefix of `s`: nothing longer is a
+name (by prefix closure a longer name would have kept the walk going), and nothing between the
+match and the stop point is a name either. -/
+theorem C14_named_longest (s : Str) (nb : Str) (mt : Option (Nat × Nat)) (len : Nat)
+    (h : walk [] none 0 s = (nb, mt, len, false)) :
+    (∀ v, mt = some v → entityLookup (s.take len) = some v ∧ v.1 ≠ 0 ∧ 0 < len) ∧
+    (∀ n, bestLen mt len < n → n ≤ s.length → ¬ isKey (s.take n)) := by
+  obtain ⟨h1, _, h3, _⟩ := walk_best s [] none 0 best_nil nb mt len false h
+  obtain ⟨⟨hb1, hb2⟩, hne, hnone⟩ := h3 rfl
+  simp only [List.nil_append] at h1
+  obtain ⟨t, ht⟩ := h1
+  have hlen : nb.length ≤ s.length := by rw [← ht]; simp
+  have htake : ∀ k, k ≤ nb.length → s.take k = nb.take k := by
+    intro k hk; rw [← ht, List.take_append_of_le_length hk]
+  constructor
+  · intro v hv
+    obtain ⟨c1, c2, c3, c4⟩ := hb1 v hv
+    simp only [List.length_take] at c2
+    refine ⟨?_, c4, c1⟩
+    rw [htake len (by omega)]
+    rw [List.take_take] at c3
+    have : min len (nb.length - 1) = len := by omega
+    rw [this] at c3; exact c3
+  · intro n hn1 hn2
+    by_cases hn : n ≤ nb.length - 1
+    · have := hb2 n hn1 (by simp; omega)
+      rw [List.take_take] at this
+      have hm : min n (nb.length - 1) = n := by omega
+      rw [hm] at this
+      rw [htake n (by omega)]; exact this
+    · -- n ≥ |nb|: a name of that length would put `nb` (a non-empty prefix of it) in the map
+      rintro ⟨v, hv1, hv2⟩
+      have hpos : 0 < nb.length := by
+        cases nb with
+        | nil => exact absurd rfl hne
+        | cons x xs => simp
+      have hnb : nb <+: s.take n := by
+        rw [← ht, List.take_append]
+        rw [List.take_of_length_le (by omega)]
+        simp
+      have hq : nb.map Char.toNat ≠ [] := by simpa using hne
+      have := lookup_prefix_closed ((s.take n).map Char.toNat) (nb.map Char.toNat) hq
+        (List.IsPrefix.map _ hnb) (by unfold entityLookup at hv1; rw [hv1]; rfl)
+      unfold entityLookup at hnone
+      simp [hnone] at this
+
+/-- one iteration of `walk` is one `do_named` step of the model (`crStep` in state `named`): the
+registers `name_buf`, `name_match`, `name_len` evolve exactly as the walk's arguments, and the step
+that leaves the map hands over to `finish_named` -/
+theorem C14_walk_is_do_named (o : Opts) (m : Mach) (inp : Str) (cr : CharRefSt) (nb : Str) (c : Char)
+    (hst : cr.state = .named) (hb : cr.nameBuf = some nb) (hpk : peek m inp = some c) :
+    crStep o m inp cr =
+      (match entityLookup (nb ++ [c]) with
+       | some v =>
+         .ok ((discardChar m inp).1, (discardChar m inp).2,
+              (if v.1 ≠ 0 then { cr with nameBuf := some (nb ++ [c]), nameMatch := some v,
+                                         nameLen := (nb ++ [c]).length }
+               else { cr with nameBuf := some (nb ++ [c]) }), .progress)
+       | none => finishNamed o (discardChar m inp).1 (discardChar m inp).2
+                   { cr with nameBuf := some (nb ++ [c]) } (some c)) := by
+  unfold crStep
+  simp only [hpk, hst, hb]
+  cases entityLookup (nb ++ [c]) with
+  | none => rfl
+  | some v =>
+    dsimp only
+    split <;> simp_all
+
+example : walk [] none 0 "notit;".toList = ("notit".toList, some (172, 0), 3, false) := by decide +kernel
+
+end Walk
 
 end H5V.Props.C14
